@@ -1011,6 +1011,19 @@ func (env *Env) call(e *ast.CallExpr) Term {
 			g.compDecl(comp, "Int")
 			return intT(g.get(env.st, comp))
 		}
+	case "called":
+		// called(fn, x): ghost - the function value fn (a parameter of unnamed function type) has been applied to x by a
+		// dynamic call made in a function under contract since the state was last havocked
+		argn(2)
+		{
+			fnv, x := env.tr(e.Args[0]), env.tr(e.Args[1])
+			if x.Sort != "Iface" && x.Sort != "Int" {
+				cerr("called: unsupported argument sort %s", x.Sort)
+			}
+			comp := "GHC$" + x.Sort
+			g.compDecl(comp, "(Array Int (Array "+x.Sort+" Bool))")
+			return boolT(fmt.Sprintf("(select (select %s %s) %s)", g.get(env.st, comp), fnv.S, x.S))
+		}
 	case "chanclosed", "chandrained":
 		// ghost flags of a channel: close(ch) was executed / a receive reported ok == false (closed and empty)
 		argn(1)
